@@ -97,6 +97,70 @@ fn main() {
         sv::model::exec::CompileOutcome::Panicked(e) => println!("panicked: {:?}", e),
       }
     }
+    "progen" => {
+      sv::engine::install_panic_hook();
+      // dev: generate N programs, report checker acceptance and reference runs; print rejected ones
+      let n: u64 = args.get(1).and_then(|s| s.parse().ok()).unwrap_or(20);
+      let show: u64 = args.get(2).and_then(|s| s.parse().ok()).unwrap_or(1);
+      let mut x: u64 = 0x9e3779b97f4a7c15;
+      let (mut ok, mut rej, mut shown) = (0, 0, 0);
+      let mut ends: std::collections::BTreeMap<String, u64> = Default::default();
+      for _ in 0..n {
+        let data: Vec<u32> = (0..1500).map(|_| { x ^= x << 13; x ^= x >> 7; x ^= x << 17; (x >> 16) as u32 }).collect();
+        let mut tape = sv::engine::Tape::new(data);
+        let (ir, _feats) = sv::generators::progen::gen_program(&mut tape, Default::default());
+        let mods = ir.render();
+        let tc = std::time::Instant::now();
+        let compiled = sv::model::exec::compile(&mods, &ir.entry);
+        let compile_ms = tc.elapsed().as_millis();
+        if std::env::var("VERIF_TRACE").is_ok() {
+          let tr = std::time::Instant::now();
+          let _ = sv::props::run_common::reference_run(&mods, &ir.entry, 3_000_000);
+          let ref_ms = tr.elapsed().as_millis();
+          let te = std::time::Instant::now();
+          let mut wasm_ms = 0; let mut ts_ms = 0; let mut val_ms = 0;
+          if let sv::model::exec::CompileOutcome::Ok(c) = &compiled {
+            let tv = std::time::Instant::now();
+            let _ = sv::model::exec::validate_wasm(&c.wasm);
+            val_ms = tv.elapsed().as_millis();
+            sv::props::run_common::with_node(|n| {
+              let t1 = std::time::Instant::now();
+              let _ = n.run_wasm(&c.wasm, &c.loader, &c.main, std::time::Duration::from_secs(20));
+              wasm_ms = t1.elapsed().as_millis();
+              let t2 = std::time::Instant::now();
+              let _ = n.run_ts(&c.ts_code, std::time::Duration::from_secs(20));
+              ts_ms = t2.elapsed().as_millis();
+            });
+          }
+          println!("compile {compile_ms} ms, reference {ref_ms} ms, validate {val_ms} ms, wasm {wasm_ms} ms, ts {ts_ms} ms, total-exec {} ms", te.elapsed().as_millis());
+        }
+        match compiled {
+          sv::model::exec::CompileOutcome::Ok(_) => {
+            ok += 1;
+            let prog = sv::model::front::load_program(&mods).unwrap();
+            let entry = prog.user.iter().copied().find(|m| m.pretty_print(&prog.heap) == ir.entry.join(".")).unwrap();
+            let run = sv::model::interp::run_program(&prog.heap, &prog.modules, entry, 3_000_000);
+            let key = match &run.end { sv::model::interp::End::Excluded(r) => format!("excluded:{r}"), sv::model::interp::End::Stuck(m) => format!("STUCK:{m}"), sv::model::interp::End::Panic(m) => format!("panic:{m}"), e => format!("{e:?}") };
+            if key.starts_with("STUCK") && shown < show {
+              shown += 1;
+              for (n, t) in &mods { println!("--- {}\n{}", n.join("."), t); }
+              println!("==> {key}");
+            }
+            *ends.entry(key).or_default() += 1;
+          }
+          sv::model::exec::CompileOutcome::Rejected(m) => {
+            rej += 1;
+            if shown < show {
+              shown += 1;
+              for (n, t) in &mods { println!("--- {}\n{}", n.join("."), t); }
+              println!("REJECTED:\n{}", &m[..m.len().min(1500)]);
+            }
+          }
+          sv::model::exec::CompileOutcome::Panicked(e) => { println!("PANIC {:?}", e); for (n, t) in &mods { println!("--- {}\n{}", n.join("."), t); } }
+        }
+      }
+      println!("accepted {ok} rejected {rej}; reference ends: {:?}", ends);
+    }
     "list" => {
       for p in sv::props::all() {
         println!("{}", p.id());
